@@ -1,11 +1,15 @@
 #!/bin/bash
 # usage: tools/seed_confirm.sh <worktree> : confirms (1) demo fails with the change, (2) passes without, (3) suite passes with the change
+# (no `git stash`: the stash is shared between worktrees)
 wt="$1"; cd "$wt" || exit 1
+feat="${2:-}"
+git diff -- src derive > /tmp/$(basename $wt).confirm.diff
 cp _seed/demo.rs tests/seed_demo.rs
-echo "--- demo WITH change"; cargo test --offline --test seed_demo 2>&1 | grep -E "^test result|error(\[|:)" | head -3
-git stash push -q -- src derive 2>/dev/null
-echo "--- demo WITHOUT change"; cargo test --offline --test seed_demo 2>&1 | grep -E "^test result|error(\[|:)" | head -3
-git stash pop -q
+echo "--- demo WITH change"; cargo test --offline $feat --test seed_demo 2>&1 | grep -E "^test result|^error" | head -3
+git apply -R /tmp/$(basename $wt).confirm.diff
+echo "--- demo WITHOUT change"; cargo test --offline $feat --test seed_demo 2>&1 | grep -E "^test result|^error" | head -3
+git apply /tmp/$(basename $wt).confirm.diff
 rm -f tests/seed_demo.rs
-echo "--- suite WITH change"; cargo test --offline --workspace --no-fail-fast 2>&1 | grep -E "^test result: FAILED|^test .* FAILED|^test result: ok" | sort | uniq -c | head -12
+echo "--- suite WITH change (failing tests listed; 3 UI tests fail on the unmodified tree too)"
+cargo test --offline --workspace --no-fail-fast 2>&1 | grep -E "^test .* FAILED|^test result: FAILED" | sort | uniq -c | head -12
 git status --short | head -5
